@@ -857,6 +857,9 @@ func runReplayCmd(path string) int {
 		fmt.Fprintln(os.Stderr, "unknown property", c.Property)
 		return 2
 	}
+	if c.Property == "C14" {
+		return replayC14(p, path, b)
+	}
 	sc, _, err := newScratch(p, true)
 	if err != nil {
 		fmt.Fprintln(os.Stderr, err)
